@@ -107,6 +107,8 @@ func X15Hostile(n int) []uint32 {
 type x15Step struct {
 	dyn   bool
 	field string
+	fixed bool // a constant index (konst)
+	konst int
 }
 
 // x15Cont: a variable type and the access path applied to it.
@@ -137,6 +139,10 @@ func (c x15Cont) lens() ([]int, *Type) {
 	t := c.fixed()
 	var out []int
 	for _, s := range c.path {
+		if s.fixed {
+			t = elemOf(t)
+			continue
+		}
 		if s.dyn {
 			switch t.K {
 			case TArray:
@@ -163,10 +169,13 @@ func (c x15Cont) chain(root Expr, idx func(level int) Expr) Expr {
 	e := root
 	k := 0
 	for _, s := range c.path {
-		if s.dyn {
+		switch {
+		case s.fixed:
+			e = Idx(e, LitU(uint32(s.konst)))
+		case s.dyn:
 			e = Idx(e, idx(k))
 			k++
-		} else {
+		default:
 			e = Fld(e, s.field)
 		}
 	}
@@ -245,9 +254,10 @@ type x15Var struct {
 }
 
 type x15Body struct {
-	pre  []Stmt                // declarations placed first (after `let dyn`)
-	wrap func([]Stmt) []Stmt   // optional: wraps the access statements (loop forms)
-	fns  []*Func               // helper functions
+	pre    []Stmt              // declarations placed first (after `let dyn`)
+	wrap   func([]Stmt) []Stmt // optional: wraps the access statements (loop forms)
+	fns    []*Func             // helper functions
+	consts []ConstDecl         // module-scope constants
 }
 
 const x15IdxWords = 4
@@ -385,6 +395,7 @@ func buildX15Site(sig string, s x15Site, vars []x15Var, levels []int, bd x15Body
 	body = append(body, access...)
 	body = append(body, post...)
 	m.Funcs = append(m.Funcs, bd.fns...)
+	m.Consts = append(m.Consts, bd.consts...)
 	m.Funcs = append(m.Funcs, &Func{Name: "main", Stage: "compute", WG: [3]int{1, 0, 0}, Body: body})
 	return &Case{Sig: sig + "/" + x15InSig(in), Mod: m, Bufs: bufs, Groups: [3]uint32{1, 1, 1}, BufTypes: btypes}
 }
@@ -433,16 +444,17 @@ func x15MkVar(name string, w int, signed bool, source string, pre *[]Stmt) x15Va
 // ---------------------------------------------------------------- F15xf: index-expression forms
 
 type x15FormCtx struct {
-	m    *Module
-	ty   *Type
-	n    int
-	i    func() Expr // the hostile value (a let)
-	raw  func() Expr // the expression that loads it
-	j    func() Expr // a second run-time value of the same type (idx[1], always 0)
-	c    func() Expr // a run-time bool (idx[2] != 0)
-	pre  []Stmt
-	wrap func([]Stmt) []Stmt
-	fns  []*Func
+	m      *Module
+	ty     *Type
+	n      int
+	i      func() Expr // the hostile value (a let)
+	raw    func() Expr // the expression that loads it
+	j      func() Expr // a second run-time value of the same type (idx[1], always 0)
+	c      func() Expr // a run-time bool (idx[2] != 0)
+	pre    []Stmt
+	wrap   func([]Stmt) []Stmt
+	fns    []*Func
+	consts []ConstDecl
 }
 
 func (c *x15FormCtx) lit(v int) Expr {
@@ -513,6 +525,25 @@ func x15Forms() []x15Form {
 		c.fns = append(c.fns, &Func{Name: "idf", Params: []Param{{Name: "v", Ty: c.ty}}, Ret: c.ty, Body: []Stmt{&Return{X: L("v", c.ty)}}})
 		return &Call{Fn: "idf", Args: []Expr{c.i()}, Ty: c.ty, User: true}
 	})
+	// the access sits under `if (i < N)`: that bounds an unsigned i (for N <= n) but not a negative one
+	for d := 0; d <= 1; d++ {
+		d := d
+		add([...]string{"if-lt:n", "if-lt:n+1"}[d], func(c *x15FormCtx) Expr {
+			c.wrap = func(body []Stmt) []Stmt {
+				return []Stmt{&If{Cond: &Bin{Op: "<", L: c.i(), R: c.lit(c.n + d), Ty: TBool}, Then: body}}
+			}
+			return c.i()
+		})
+	}
+	// the bound is a module-scope constant instead of a literal
+	add("mod-const:n", func(c *x15FormCtx) Expr {
+		c.consts = append(c.consts, ConstDecl{Name: "CN", Ty: c.ty, Init: c.lit(c.n), Explicit: true})
+		return c.bin("%", c.i(), L("CN", c.ty))
+	})
+	add("min-const:n+1", func(c *x15FormCtx) Expr {
+		c.consts = append(c.consts, ConstDecl{Name: "CN", Ty: c.ty, Init: c.lit(c.n), Explicit: true})
+		return c.call("min", c.i(), L("CN", c.ty))
+	})
 	// loop counters: for (var k = i; k < N; k++) { access(k); if two iterations done { break; } }
 	for d := 0; d <= 1; d++ {
 		d := d
@@ -560,7 +591,7 @@ func x15FormSetup(m *Module, f x15Form, n int, signed bool) (x15Var, x15Body) {
 		c2 := *c
 		return f.build(&c2)
 	}}
-	return v, x15Body{pre: c.pre, wrap: c.wrap, fns: c.fns}
+	return v, x15Body{pre: c.pre, wrap: c.wrap, fns: c.fns, consts: c.consts}
 }
 
 // x15AccSite: one of the F15acc access forms with the index expression replaced.
@@ -581,6 +612,7 @@ func buildX15Acc(sig string, f accForm, form x15Form, signed bool, in []uint32) 
 	}
 	body := append(append([]Stmt{}, bd.pre...), acc...)
 	m.Funcs = append(m.Funcs, bd.fns...)
+	m.Consts = append(m.Consts, bd.consts...)
 	m.Funcs = append(m.Funcs, &Func{Name: "main", Stage: "compute", WG: [3]int{1, 0, 0}, Body: body})
 	ft := Fix(accStruct, accTailN)
 	size := SizeOf(ft)
@@ -627,15 +659,46 @@ func x15FormObjects(thorough bool) []x15Cont {
 	return out
 }
 
+// x15NestedObjects: 2-level containers in which ONE level is dynamic and the other a constant, the
+// outer level shorter and longer than the inner one: a bound-sensitive form must be judged against
+// the length of the level it indexes, not its neighbour's.
+func x15NestedObjects() []x15Cont {
+	var out []x15Cont
+	for _, c := range []struct {
+		name string
+		t    *Type
+	}{{"aoa2x3", x15AoA(2, 3)}, {"aoa3x2", x15AoA(3, 2)}, {"mat2x3", Mat(2, 3)}, {"mat3x2", Mat(3, 2)}, {"aov2x4", Array(Vec(U32, 4), 2)}} {
+		out = append(out, x15Cont{name: c.name + "[dyn][1]", t: c.t, path: []x15Step{{dyn: true}, {fixed: true, konst: 1}}})
+		out = append(out, x15Cont{name: c.name + "[1][dyn]", t: c.t, path: []x15Step{{fixed: true, konst: 1}, {dyn: true}}})
+	}
+	return out
+}
+
+// x15BoundSensitive: forms whose safety depends on the length of the indexed level.
+func x15BoundSensitive(name string) bool {
+	for _, p := range []string{"mod", "and:", "min", "clamp:", "constlook:", "loop-", "if-lt:"} {
+		if strings.HasPrefix(name, p) {
+			return true
+		}
+	}
+	return false
+}
+
 // F15xForms: every index-expression form x every access site (the 27 F15acc forms and the
 // object x space x operation product) x {u32, i32} x the hostile alphabet of the indexed length.
 func F15xForms(thorough bool) *X15Family {
 	forms := x15Forms()
 	sites := x15Sites(x15FormObjects(thorough), x15Spaces, x15Ops)
+	nFlat := len(sites)
+	nestedOps := []string{"read", "write"}
+	if thorough {
+		nestedOps = x15Ops
+	}
+	sites = append(sites, x15Sites(x15NestedObjects(), x15Spaces, nestedOps)...)
 	type ent struct {
 		acc, site int // one of them >= 0
-		form     int
-		signed   bool
+		form      int
+		signed    bool
 	}
 	var ents []ent
 	for fi, f := range forms {
@@ -647,6 +710,9 @@ func F15xForms(thorough bool) *X15Family {
 				ents = append(ents, ent{ai, -1, fi, sg})
 			}
 			for si := range sites {
+				if si >= nFlat && !thorough && !x15BoundSensitive(f.name) {
+					continue
+				}
 				ents = append(ents, ent{-1, si, fi, sg})
 			}
 		}
